@@ -94,3 +94,11 @@ func NewAccount(name string) *Account {
 func (a *Account) Addr() sdk.AccAddress    { return sdk.AccAddress(a.addr) }
 func (a *Account) ValAddr() sdk.ValAddress { return sdk.ValAddress(a.addr) }
 func (a *Account) Bech32() string          { return a.b32 }
+
+// NameByAddr returns the name of the key with the given consensus address (hex upper), "" if unknown.
+func (ks *KeyStore) NameByAddr(addrHexUpper string) string {
+	if k, ok := ks.byAddr[addrHexUpper]; ok {
+		return k.Name
+	}
+	return ""
+}
